@@ -136,6 +136,7 @@ class Item:
     end: int             # offset one past the closing `}` / `;`
     children: list = field(default_factory=list)
     file: str = ""
+    rename: dict = field(default_factory=dict)   # alpha-renaming of the enclosing impl's type parameters (see SourceFile.impls)
 
     @property
     def header(self):
@@ -281,7 +282,29 @@ class SourceFile:
             rx2 = re.compile(_impl_skeleton(pattern))
         except re.error:
             return []
-        return [it for it in self.walk() if it.kind == "impl" and rx2.fullmatch(_impl_skeleton(it.name))]
+        found = [it for it in self.walk() if it.kind == "impl" and rx2.fullmatch(_impl_skeleton(it.name))]
+        if found:
+            return found
+        # Second fallback: the impl's type parameters were renamed.  Rename them positionally to the names the pattern
+        # uses and compare skeletons again; the functions of a block matched this way carry the renaming, which the
+        # world generator applies to their text (identifier tokens only).
+        want = _impl_type_params(pattern)
+        out = []
+        for it in self.walk():
+            if it.kind != "impl":
+                continue
+            have = _impl_type_params(it.name)
+            if len(have) != len(want) or have == want or len(set(have)) != len(have):
+                continue
+            ren = {a: b for a, b in zip(have, want) if a != b}
+            if set(ren.values()) & (set(have) - set(ren)):
+                continue
+            renamed = " ".join(ren.get(t, t) for t in it.name.split(" "))
+            if rx.fullmatch(renamed) or rx2.fullmatch(_impl_skeleton(renamed)):
+                for c in it.children:
+                    c.rename = dict(ren)
+                out.append(it)
+        return out
 
     def impl(self, pattern: str) -> Item:
         found = self.impls(pattern)
@@ -337,11 +360,58 @@ def _impl_skeleton(header: str) -> str:
     return " ".join(toks)
 
 
+def _impl_type_params(header: str):
+    """Names of the type parameters in the generic list right after `impl` (lifetimes and const parameters skipped)."""
+    toks = header.split(" ")
+    if len(toks) < 2 or toks[0] != "impl" or toks[1] != "<":
+        return []
+    out, depth, k, expect = [], 0, 1, True
+    while k < len(toks):
+        t = toks[k]
+        if t in ("<", "(", "["):
+            depth += 1
+            if depth == 1 and t == "<":
+                expect = True
+        elif t in (">", ")", "]"):
+            depth -= 1
+            if depth == 0:
+                break
+        elif depth == 1:
+            if t == ",":
+                expect = True
+            elif expect:
+                if t == "const":
+                    expect = False
+                elif t == "'":
+                    expect = False
+                elif re.fullmatch(r"[A-Za-z_][A-Za-z0-9_]*", t):
+                    out.append(t)
+                    expect = False
+                else:
+                    expect = False
+        k += 1
+    return out
+
+
+def rename_idents(text: str, ren: dict) -> str:
+    """Replace identifier tokens per `ren` (comments and string literals untouched)."""
+    if not ren:
+        return text
+    out, pos = [], 0
+    for t in code_tokens(lex(text)):
+        if t.kind == "ident" and t.text in ren:
+            out.append(text[pos:t.start])
+            out.append(ren[t.text])
+            pos = t.end
+    out.append(text[pos:])
+    return "".join(out)
+
+
 def split_fn(it: Item):
     """(signature text without trailing ws, body text incl. braces) of a fn item."""
     if it.kind != "fn":
         raise ExtractError("not a fn")
-    return it.src[it.start:it.head_end].rstrip(), it.src[it.head_end:it.end]
+    return rename_idents(it.src[it.start:it.head_end].rstrip(), it.rename), rename_idents(it.src[it.head_end:it.end], it.rename)
 
 
 if __name__ == "__main__":
